@@ -79,6 +79,7 @@ def OptStep.specReady (s : OptStep) : Bool :=
   | .boolOrNull => s.dflt.isNull
   | .strOrNull => s.dflt.isNull
   | .dictOrNull => s.dflt.isNull
+  | .strUri _ => s.dflt.isNull
   | _ => true
 
 theorem isDflt_null {d : WVal} (h : d.isNull = true) : isDflt d .null = true := by
@@ -133,6 +134,13 @@ theorem opt_spec_of_valid {m : Msg} {s : OptStep} (hr : s.ty.isRoles = false) (h
       rw [hty] at h
       simp only [OTy.valid] at h
       simp only [uriOk_spec h, if_true]
+    | strUri n =>
+      rw [hty] at h hrd
+      simp only at hrd
+      cases hv : m.get s.field <;> rw [hv] at h hnd <;> simp only [OTy.valid, Bool.false_eq_true] at h
+      · exact absurd (isDflt_null hrd) hnd
+      · simp [oracles, Uri.uri_equiv _ _ _ _] at h
+        simp [h]
     | forwardFor b =>
       rw [hty] at h hrd
       simp only at hrd
@@ -201,7 +209,42 @@ def Schema.codeOk (σ : Schema) : Bool :=
   | some e => e.2 == σ.code
   | none => false
 
-def Schema.specReady (σ : Schema) : Bool := σ.codeOk && σ.opts.all OptStep.specReady
+/-- does the parser model check this option as the kind the Spec's own table gives the field? -/
+def kindMatches : SpecKind → OTy → Bool
+  | .uri, .uri fl => !fl.strict && !fl.allowEmpty && !fl.allowLastEmpty
+  | .uri, .strUri _ => true
+  | .id, .id => true
+  | .idList, .listId => true
+  | _, _ => false
+
+/-- every entry of the Spec's field table for this class is an option the parser model checks as that kind -/
+def Schema.tableCovered (σ : Schema) : Bool :=
+  σ.tableEntries.all (fun e => σ.opts.any (fun s => s.field == e.2.1 && s.dflt.isNull && kindMatches e.2.2 s.ty))
+
+def Schema.specReady (σ : Schema) : Bool := σ.codeOk && σ.opts.all OptStep.specReady && σ.tableCovered
+
+theorem specKindOk_null (k : SpecKind) : specKindOk Uri.Spec.ok k .null = true := by cases k <;> rfl
+
+theorem kind_ok_of_valid {k : SpecKind} {ty : OTy} {v : WVal} (hk : kindMatches k ty = true)
+    (hv : ty.valid oracles v = true) : specKindOk Uri.Spec.ok k v = true := by
+  cases k <;> cases ty <;> simp only [kindMatches, Bool.false_eq_true] at hk
+  · rename_i fl
+    simp only [Bool.and_eq_true, Bool.not_eq_true'] at hk
+    obtain ⟨⟨h1, h2⟩, h3⟩ := hk
+    cases v <;> simp only [OTy.valid, uriOk, Bool.false_eq_true] at hv
+    · rfl
+    · simp only [specKindOk]
+      rw [h1, h2, h3] at hv
+      simpa [oracles, Uri.uri_equiv _ _ _ _] using hv
+  · cases v <;> simp only [OTy.valid, Bool.false_eq_true] at hv
+    · rfl
+    · simp only [specKindOk]
+      simpa [oracles, Uri.uri_equiv _ _ _ _] using hv
+  · cases v <;> simp only [OTy.valid, Bool.false_eq_true] at hv
+    simp only [specKindOk, ← idOk_eq_spec, hv]
+  · cases v <;> simp only [OTy.valid, Bool.false_eq_true] at hv
+    simp only [specKindOk]
+    exact (allId_spec _ hv).2
 
 /-- positional strictness needs no assumption on the option types (HELLO / WELCOME included) -/
 theorem pos_strict_of_inv {σ : Schema} {O : Oracles} {w : List WVal} {m' : Msg}
@@ -298,11 +341,26 @@ theorem specViolations_of_parse (σ : Schema) (hwf : σ.wf = true) (hrd : σ.spe
   subst h
   have inv := parseFields_inv hwf (parseStage_fields hps).1
   simp only [Schema.specReady, Bool.and_eq_true] at hrd
-  obtain ⟨hcode, hopts⟩ := hrd
+  obtain ⟨⟨hcode, hopts⟩, htab⟩ := hrd
   intro fr hfr
   unfold Schema.specViolations at hfr
   simp only [List.mem_append] at hfr
-  rcases hfr with ((hfr | hfr) | hfr) | hfr
+  rcases hfr with (((hfr | hfr) | hfr) | hfr) | hfr
+  rotate_left 4
+  · -- the Spec's own field table
+    obtain ⟨e, he, hv⟩ := List.mem_filterMap.mp hfr
+    have hcv := List.all_eq_true.mp htab e he
+    simp only [List.any_eq_true, Bool.and_eq_true, beq_iff_eq] at hcv
+    obtain ⟨s, hs, ⟨hf, hd⟩, hk⟩ := hcv
+    have hr : s.ty.isRoles = false := by
+      cases hty : s.ty <;> first | rfl | (rw [hty] at hk; cases e.2.2 <;> simp [kindMatches] at hk)
+    have hok : specKindOk Uri.Spec.ok e.2.2 (Msg.get m' e.2.1) = true := by
+      rw [← hf]
+      rcases OptStep.parse_ok ((wf_parts hwf).2.2.2.2.2.2.2.1 s hs) hr (inv.opts s hs) with h0 | h1
+      · rw [isDflt_eq h0, null_of_isNull hd]; exact specKindOk_null _
+      · exact kind_ok_of_valid hk h1
+    rw [hok] at hv
+    simp at hv
   · -- type code
     unfold Schema.codeOk at hcode
     split at hfr
